@@ -1294,8 +1294,9 @@ class DiscretizedSpaceElement(Tensor):
                     labels2 = [lbl + ' (2)' for lbl in inp2.space.axis_labels]
                     labels = labels1 + labels2
 
-                    if all(isinstance(inp.space.weighting, ConstWeighting)
-                           for inp in inputs):
+                    if (is_numeric_dtype(res_tens.dtype) and
+                        all(isinstance(inp.space.weighting, ConstWeighting)
+                            for inp in inputs)):
                         # For constant weighting, use the product of the
                         # two weighting constants. The result tensor space
                         # cannot know about the "correct" way to combine the
